@@ -98,6 +98,22 @@ Theorem C15_like_chain_text : forall (T : Type) (SC : Scalar T) (e : env (T:=T))
 Proof. exact @like_equals_expanded_text. Qed.
 Print Assumptions C15_like_chain_text.
 
+(* a chain that ends on an explicit card is shorter than the table, so the fuel
+   parse_all gives to the LIKE loop (the number of cards) is always enough: the
+   model answers EFuel only on cyclic chains (where the code loops for ever) *)
+Theorem C15_chain_depth : forall (tbl : table) (n : Z) (d : nat) (x : card),
+  denotes tbl n d x -> (d < List.length tbl)%nat.
+Proof. exact denotes_depth. Qed.
+Print Assumptions C15_chain_depth.
+
+Theorem C15_like_in_parse_all : forall (T : Type) (SC : Scalar T) (e : env (T:=T)) (tbl : table)
+    (rank : nat) (lat : option (list (Z * Z))) (mat0 g0 o : string) (n : Z) (d : nat) (x : card),
+  search_like (lower g0) = Some n -> denotes tbl n d x ->
+  parse_one_cell SC (List.length tbl) e tbl rank lat (mat0, g0, o) =
+  worker SC e rank lat (apply_but x o).
+Proof. exact @like_in_parse_all. Qed.
+Print Assumptions C15_like_in_parse_all.
+
 (* LIKE n BUT o = the cell with the material string and the geometry of the card
    n stands for, and n's keyword dictionary with every parameter listed in o
    overridden — provided o does not lower an importance written on the
